@@ -170,3 +170,65 @@ def o14_2_filter_index(mir, tier):
     res.wall_s = time.time() - t0
     if res.violations: res.status = 'violation'
     return res
+
+
+def o14_4_builder_new(mir, tier):
+    """TableBuilder::new: the builder's notion of the file offset (current_offset, from which every block handle is computed)
+    equals the length of the file it writes to.  File system contract: create_file(path, append) leaves the old length when
+    appending to an existing file (free value, a leftover of a crashed build with the same number) and 0 bytes otherwise."""
+    fn = mir.method('TableBuilder', 'new')
+    res = Result('O14.4 TableBuilder::new starts at the end of an empty file', [fn.path],
+                 'length of a leftover file with the same number free (64 bit); create_file succeeds or fails (free); block builders / filter builder by contract')
+    t0 = time.time()
+    S = lib.std_summaries(); P = S['$patterns']
+    leftover, create_ok = BitVec('leftover_len', 64), Bool('create_ok')
+    P[r'DbOptions::db_path'] = lambda se, env, pc, o: lib.one(env, {'str': 'db'})
+    P[r'DbOptions::filesystem_provider'] = lambda se, env, pc, o: lib.one(env, {'abstract': True, '__ty': 'fs'})
+    P[r'DbOptions::filter_policy'] = lambda se, env, pc, o: lib.one(env, {'abstract': True, '__ty': 'policy'})
+    P[r'FileNameHandler::new'] = lambda se, env, pc, s: lib.one(env, {'abstract': True, '__ty': 'FileNameHandler'})
+    P[r'FileNameHandler::get_table_file_path'] = lambda se, env, pc, h, n: lib.one(env, {'path': 'table', 'num': n})
+    P[r'<PathBuf as Deref>::deref'] = lib.ident
+    def create(se, env, pc, fs, path, app):
+        st = dict(env['$state']); st['created'] = st['created'] + [(se.deref(env, path) if isinstance(path, Ref) else path, app)]
+        return [(create_ok, Enum('Ok', ({'abstract': True, '__ty': 'file'},)), st), (Not(create_ok), Enum('Err', ({'kind': 'Other', '__ty': 'io::Error'},)), st)]
+    P[r'<dyn FileSystem as FileSystem>::create_file'] = create
+    P[r'FilterBlockBuilder::new'] = lambda se, env, pc, p: lib.one(env, {'abstract': True, '__ty': 'FilterBlockBuilder'})
+    P[r'BlockBuilder::new'] = lambda se, env, pc, n: lib.one(env, {'abstract': True, '__ty': 'BlockBuilder'})
+    P[r'<TableBuildError as From<.*>>::from'] = lambda se, env, pc, e: lib.one(env, Enum('IO', (e,), 'TableBuildError'))
+    P[r'<Result<.*> as FromResidual<Result<Infallible, .*>>>::from_residual'] = lambda se, env, pc, r: lib.one(env, r)
+    ex = Exec(mir, S, loop_bound=3, opaque_calls_ok=True)
+    tf = mir.struct_fields('TableBuilder'); num = BitVec('file_number', 64)
+    def k(ret, env, pc):
+        ok = isinstance(ret, Enum) and ret.tag == 'Ok'
+        created = env['$state']['created']
+        posts = [('TableBuilder::new succeeds although the file could not be created (or the reverse)', BoolVal(ok) == create_ok),
+                 ('TableBuilder::new does not create exactly one file', BoolVal(len(created) == 1))]
+        if ok and len(created) == 1:
+            b = ret.fields[0]; path, app = created[0]
+            app = app if not isinstance(app, bool) else BoolVal(app)
+            file_len = If(app, leftover, bv(0))
+            posts.append(('the table file is not the one named after the file number', BoolVal(isinstance(path, dict) and path.get('path') == 'table') if not (isinstance(path, dict) and 'num' in path) else path['num'] == num))
+            posts.append(('the builder offset differs from the length of the file it writes to (block handles will not point at the written bytes)', b[tf.index('current_offset')] == file_len))
+            posts.append(('the builder does not carry the file number it was given', b[tf.index('file_number')] == num))
+        res.cases['Ok' if ok else 'Err'] = 1
+        for label, post in posts:
+            ex.record_formula(label, pc, Not(post))
+            m = ex.model(Not(post))
+            if m is not None:
+                res.violations.append({'label': label, 'model': {'leftover_len': mval(m, leftover)}, 'replay': ['table_rebuild'] if 'offset differs' in label else None,
+                                       'confirmed_by': None if 'offset differs' in label else {'reproduced': False, 'detail': 'no native scenario for this label'}})
+    env = {'$state': {'created': []}}
+    ex.top(fn, [{'abstract': True, '__ty': 'DbOptions'}, num], env, [], k)
+    res.absorb(ex)
+    for pc, msg, where in ex.panics:
+        res.panic_paths += 1; res.violations.append({'label': 'panic path: ' + msg[:80], 'replay': None, 'confirmed_by': {'reproduced': False, 'detail': 'no native scenario'}})
+    res.wall_s = time.time() - t0
+    if res.violations: res.status = 'violation'
+    return res
+
+
+def o14_4_confirm(v, out):
+    """Native: table 1 is built, then built again with other contents (a leftover file with the same number exists); a key of the
+    second build must be found."""
+    if out.get('_rc') != 0: return (False, 'native run failed: %s' % out.get('_stderr', '')[-300:])
+    return (out.get('second_build_get') != 'Ok(Some)', 'a key of the rebuilt table reads %s (file length %s after the first build, %s after the second)' % (out.get('second_build_get'), out.get('len1'), out.get('len2')))
